@@ -23,6 +23,8 @@ class AnnotateMinIriStrategy(AbstractMinIriStrategy):
         # shape.iri_pattern = self._determine_suitable_iri_pattern(self._min_iris_dict[shape.class_uri])
 
     def _determine_suitable_iri_pattern(self, longest_common_prefix):
+        if longest_common_prefix is None:  # already decided in a previous run (new threshold): there is no pattern
+            return None
         backwards_str = longest_common_prefix[::-1]
         last_sep_char = _SEP_CHARS.search(backwards_str)
         if last_sep_char is None:
